@@ -34,11 +34,13 @@ import (
 	"k8s.io/kubernetes/pkg/scheduler/framework"
 
 	apiext "github.com/koordinator-sh/koordinator/apis/extension"
+	schedulingv1alpha1 "github.com/koordinator-sh/koordinator/apis/scheduling/v1alpha1"
 	schedulingconfig "github.com/koordinator-sh/koordinator/pkg/scheduler/apis/config"
 	"github.com/koordinator-sh/koordinator/pkg/scheduler/frameworkext"
 	"github.com/koordinator-sh/koordinator/pkg/scheduler/frameworkext/topologymanager"
 	"github.com/koordinator-sh/koordinator/pkg/util/bitmask"
 	"github.com/koordinator-sh/koordinator/pkg/util/cpuset"
+	reservationutil "github.com/koordinator-sh/koordinator/pkg/util/reservation"
 	sim "github.com/koordinator-sh/koordinator/pkg/verifsim"
 )
 
@@ -56,6 +58,9 @@ const (
 	// history class of the recorded finding (known_findings.jsonl): a NUMA-level
 	// allocation whose hint names several nodes and is not exactly {0,1}
 	nvTagHint = "numa-hint-multi-node-not-01"
+	// history class of the recorded finding: a FullPCPUs CPU-set request on a machine with three or more
+	// sockets and SMT (the cross-socket top-up loop of takeCPUs keeps taking cores from the next socket)
+	nvTagTopUp = "three-or-more-sockets-fullpcpus-topup"
 )
 
 // ---------------------------------------------------------------- plan types
@@ -102,15 +107,20 @@ type nvOp struct {
 	Topo *nvTopo `json:"topo,omitempty"`
 	Pre  []nvPre `json:"pre,omitempty"`
 	// pod_create
-	Bind bool             `json:"bind,omitempty"` // pod asks for a CPU set (LSE/LSR)
-	Pol  string           `json:"pol,omitempty"`  // CPU bind policy
-	Reqd bool             `json:"required,omitempty"`
-	Excl string           `json:"excl,omitempty"`
-	Req  map[string]int64 `json:"req,omitempty"`
+	Bind  bool             `json:"bind,omitempty"` // pod asks for a CPU set (LSE/LSR)
+	Pol   string           `json:"pol,omitempty"`  // CPU bind policy
+	Reqd  bool             `json:"required,omitempty"`
+	Excl  string           `json:"excl,omitempty"`
+	Req   map[string]int64 `json:"req,omitempty"`
+	Resv  bool             `json:"resv,omitempty"`  // the pod is the reserve pod of a reservation (it reserves a CPU set for its owner pods)
+	RPol  string           `json:"rpol,omitempty"`  // reservation allocate policy ("", Aligned, Restricted)
+	Owner string           `json:"owner,omitempty"` // name of the reservation this pod is an owner of (it allocates out of that reservation where it is available)
 	// sched
 	Hint      []int `json:"hint,omitempty"` // NUMA affinity chosen by the topology manager for this cycle
 	Abandon   bool  `json:"abandon,omitempty"`
 	BindFails bool  `json:"bind_fails,omitempty"`
+	// preemption dry run (PostFilter): the cycle evaluates the node with these pods removed; never committed
+	Victims []string `json:"victims,omitempty"`
 	// take (direct call of takePreferredCPUs on the node's current state, as the reservation-restore path does)
 	Pref []int `json:"pref,omitempty"`
 	CPUs int   `json:"cpus,omitempty"`
@@ -233,6 +243,8 @@ type nvAlloc struct {
 	cpus []int                    // sorted
 	numa map[int]map[string]int64 // NUMA node -> dimension -> amount
 	excl string                   // CPU exclusive policy recorded with the allocation (C19; not part of String())
+	resv bool                     // held by the reserve pod of a reservation (not part of String())
+	via  string                   // uid of the reservation this owner pod allocated out of (not part of String())
 }
 
 func (a *nvAlloc) empty() bool { return a == nil || (len(a.cpus) == 0 && len(a.numa) == 0) }
@@ -286,11 +298,14 @@ func nvFromReal(pa *PodAllocation) *nvAlloc {
 }
 
 type nvSpec struct {
-	Bind bool
-	Pol  string
-	Reqd bool
-	Excl string
-	Req  map[string]int64
+	Bind  bool
+	Pol   string
+	Reqd  bool
+	Excl  string
+	Req   map[string]int64
+	Resv  bool
+	RPol  string
+	Owner string
 }
 
 // nvPodVer is one version of a pod object in the API server.
@@ -349,10 +364,13 @@ type nvSim struct {
 	// event-level model of the ledger: node -> pod uid -> allocation
 	holders map[string]map[string]*nvAlloc
 	steps   int
+	// reservations the scheduler knows to be available: reservation (reserve pod) name -> bound version
+	resvAvail map[string]*nvPodVer
+	deferred  func() // a failed check of opSched that is reported after the checks on the allocation itself
 	// C19 (restart) mode
 	c19     bool
-	liveBad bool                    // the live ledger failed one of C06's oracles in this run: not used as a reference any more
-	pl      *Plugin                 // real Plugin for PreBind (persistence at bind)
+	liveBad bool    // the live ledger failed one of C06's oracles in this run: not used as a reference any more
+	pl      *Plugin // real Plugin for PreBind (persistence at bind)
 	forks   int
 	mixed   map[string]map[int]bool // node -> CPUs on which an allocation was added on top of a holder with another exclusive policy
 }
@@ -411,6 +429,10 @@ func (s *nvSim) mkPod(v *nvPodVer) *nvPodVer {
 		if err := apiext.SetResourceSpec(pod, spec); err != nil {
 			s.r.HarnessFail("SetResourceSpec: %v", err)
 		}
+	}
+	if v.spec.Resv {
+		pod.Annotations[reservationutil.AnnotationReservePod] = "true"
+		pod.Annotations[reservationutil.AnnotationReservationName] = v.name
 	}
 	if v.node != "" {
 		pod.Status.Phase = corev1.PodRunning
@@ -499,6 +521,39 @@ func (s *nvSim) hold(node, uid string, a *nvAlloc) {
 }
 
 func (s *nvSim) unhold(node, uid string) { delete(s.holders[node], uid) }
+
+// nvSharing counts, per CPU, the holders that matter for the sharing limit: every pod holding it, plus every
+// reservation holding it unless one of that reservation's own owner pods took the CPU out of it (the reservation's
+// hold is then the owner's, not a second user).
+func nvSharing(hs map[string]*nvAlloc) map[int]int {
+	out := map[int]int{}
+	covered := map[string]map[int]bool{} // reservation uid -> CPUs taken by its owners
+	for _, a := range hs {
+		if a == nil || a.resv {
+			continue
+		}
+		for _, c := range a.cpus {
+			out[c]++
+			if a.via != "" {
+				if covered[a.via] == nil {
+					covered[a.via] = map[int]bool{}
+				}
+				covered[a.via][c] = true
+			}
+		}
+	}
+	for uid, a := range hs {
+		if a == nil || !a.resv {
+			continue
+		}
+		for _, c := range a.cpus {
+			if !covered[uid][c] {
+				out[c]++
+			}
+		}
+	}
+	return out
+}
 
 func (s *nvSim) cpuCounts(node string) map[int]int {
 	cnt := map[int]int{}
@@ -689,7 +744,8 @@ func (s *nvSim) opPodCreate(op *nvOp) bool {
 			return false // names are not reused while events of an earlier pod are in flight
 		}
 	}
-	v := s.mkPod(&nvPodVer{name: op.P, uid: "u-" + op.P, rv: s.bump(), spec: nvSpec{Bind: op.Bind, Pol: op.Pol, Reqd: op.Reqd && op.Bind, Excl: op.Excl, Req: op.Req}})
+	v := s.mkPod(&nvPodVer{name: op.P, uid: "u-" + op.P, rv: s.bump(), spec: nvSpec{Bind: op.Bind, Pol: op.Pol, Reqd: op.Reqd && op.Bind, Excl: op.Excl, Req: op.Req,
+		Resv: op.Resv && op.Bind && op.Owner == "", RPol: op.RPol, Owner: op.Owner}})
 	s.pods[op.P] = v
 	s.emit(nvEvent{typ: "pod", kind: "add", new: v})
 	s.r.Event("pod_create %s bind=%v pol=%s req=%v excl=%s {%s}", op.P, op.Bind, op.Pol, op.Reqd, op.Excl, nvFmt(op.Req))
@@ -783,12 +839,16 @@ func (s *nvSim) deliverPod(ev nvEvent) {
 			}
 		case v.term:
 			delete(s.queue, v.name)
+			delete(s.resvAvail, v.name)
 			if _, held := s.holders[v.node][v.uid]; held {
 				s.r.Probe("terminated-release")
 			}
 			s.unhold(v.node, v.uid)
 		default:
 			delete(s.queue, v.name)
+			if v.spec.Resv && !v.alloc.empty() {
+				s.resvAvail[v.name] = v // the reservation became Available on its node
+			}
 			if v.alloc.empty() {
 				return
 			}
@@ -815,6 +875,7 @@ func (s *nvSim) deliverPod(ev nvEvent) {
 		}
 		s.r.Event("deliver pod delete %s node=%s", v.name, v.node)
 		delete(s.queue, v.name)
+		delete(s.resvAvail, v.name)
 		if v.node != "" {
 			s.unhold(v.node, v.uid)
 		}
@@ -880,6 +941,9 @@ func (s *nvSim) opSched(op *nvOp) bool {
 	if !pod.spec.Bind && hint == nil {
 		return false // Plugin.allocate returns before Allocate: nothing to do for this pod on this node
 	}
+	if pod.spec.Resv && hint != nil {
+		return false // reservations of this workload reserve CPU sets only (no NUMA-level amounts)
+	}
 	need := int(pod.spec.Req[nvCPU] / 1000)
 	reqs := nvToRL(pod.spec.Req)
 	opts := &ResourceOptions{
@@ -903,24 +967,96 @@ func (s *nvSim) opSched(op *nvOp) bool {
 		if len(hint) >= 3 || (len(hint) == 2 && !nvIsPrefix(hint)) {
 			// history class of the recorded finding: a multi-node hint other than {0,1} (the comparator of the
 			// ascending-by-free sort looks up slice positions instead of the node ids stored at those positions)
-			s.tagC06(nvTagHint)
+			// (fixed in /repo: "sort hinted NUMA nodes by the free amount of the node id"; no longer a tagged class)
+			s.r.Probe("hint-multi-node-not-01")
 		}
 		if !nvIsPrefix(hint) {
 			s.r.Probe("hint-not-prefix")
 		}
 	}
 
+	if pod.spec.Bind && pod.spec.Pol == string(apiext.CPUBindPolicyFullPCPUs) && t.S >= 3 && t.T >= 2 {
+		s.tagC06(nvTagTopUp)
+	}
+
 	// ---- the state before the call, from the model only
-	cnt := s.cpuCounts(op.N)
-	free := s.numaFree(op.N, t)
+	cnt := s.cpuCounts(op.N)    // holders per CPU
+	free := s.numaFree(op.N, t) // per-NUMA free amounts (nobody removed)
+	// What this pod may additionally use: ONE reference of every CPU of the reservation it allocates out of
+	// (the reservation's own hold) and ONE reference of every CPU of the pods a preemption dry run removes.
+	var resv *nvPodVer
+	var resvCPUs, victimCPUs map[int]bool
+	var victims []string // uids
+	if !s.c19 {
+		if r := s.resvAvail[pod.spec.Owner]; pod.spec.Owner != "" && r != nil && r.node == op.N && !s.holders[op.N][r.uid].empty() {
+			resv = r
+			resvCPUs = map[int]bool{}
+			for _, c := range s.holders[op.N][r.uid].cpus {
+				resvCPUs[c] = true
+			}
+		}
+		seen := map[string]bool{}
+		for _, vn := range op.Victims {
+			uid := "u-" + vn
+			a := s.holders[op.N][uid]
+			if a.empty() || a.resv || vn == op.P || seen[uid] {
+				continue
+			}
+			seen[uid] = true
+			victims = append(victims, uid)
+			if victimCPUs == nil {
+				victimCPUs = map[int]bool{}
+			}
+			for _, c := range a.cpus {
+				victimCPUs[c] = true
+			}
+		}
+	}
+	// cntFor: holders of the CPU as far as THIS pod is concerned
+	cntFor := func(c int) int {
+		k := cnt[c]
+		if resvCPUs[c] && k > 0 {
+			k--
+		}
+		if victimCPUs[c] && k > 0 {
+			k--
+		}
+		return k
+	}
+	freeMax := free // per-NUMA free amounts with the victims removed
+	if len(victims) > 0 {
+		freeMax = map[int]map[string]int64{}
+		for n, m := range free {
+			freeMax[n] = map[string]int64{}
+			for d, v := range m {
+				freeMax[n][d] = v
+			}
+		}
+		for _, uid := range victims {
+			for n, m := range s.holders[op.N][uid].numa {
+				capn := t.capacity(n)
+				for d, v := range m {
+					if _, ok := capn[d]; ok {
+						freeMax[n][d] = min(capn[d], freeMax[n][d]+v)
+					}
+				}
+			}
+		}
+	}
 	freeCPUs := 0
 	for c := 0; c < t.numCPUs(); c++ {
-		if !t.reserved(c) && cnt[c] < t.Max {
+		if !t.reserved(c) && cntFor(c) < t.Max {
 			freeCPUs++
 		}
 	}
 
-	pa, status := s.rm.Allocate(nd.obj, pod.obj, opts)
+	var pa *PodAllocation
+	var status *fwktype.Status
+	if s.c19 {
+		pa, status = s.rm.Allocate(nd.obj, pod.obj, opts)
+	} else {
+		pa, status = s.allocateAsPlugin(op, pod, nd, opts, resv, victims, cntFor)
+	}
 	ok := status.IsSuccess()
 	s.oracleEval()
 	if ok && pa == nil {
@@ -934,6 +1070,15 @@ func (s *nvSim) opSched(op *nvOp) bool {
 	}
 	desc := fmt.Sprintf("pod %s{bind=%v pol=%s required=%v excl=%s %s} node %s{%dx%dx%dx%d lay=%d res=%v max=%d} hint=%v",
 		op.P, pod.spec.Bind, pod.spec.Pol, pod.spec.Reqd, pod.spec.Excl, nvFmt(pod.spec.Req), op.N, t.S, t.NPS, t.C, t.T, t.Lay, t.Res, t.Max, hint)
+	if pod.spec.Resv {
+		desc += " (reserve pod)"
+	}
+	if resv != nil {
+		desc += fmt.Sprintf(" out of reservation %s{%s policy=%s}", resv.name, s.holders[op.N][resv.uid], resv.spec.RPol)
+	}
+	if len(victims) > 0 {
+		desc += fmt.Sprintf(" preemption dry run with victims %v holding CPUs %v", victims, nvSortedInts(victimCPUs))
+	}
 
 	if !ok {
 		if pod.spec.Bind {
@@ -945,7 +1090,8 @@ func (s *nvSim) opSched(op *nvOp) bool {
 		if hint != nil {
 			s.r.Probe("alloc-numa-fail")
 		}
-		if hint != nil && !pod.spec.Bind {
+		if hint != nil && !pod.spec.Bind && resv == nil {
+			// (a pod that allocates out of a reservation is confined by the reservation's policy: no claim)
 			// COMPLETENESS (freely divisible resources, no CPU binding): the hinted nodes together have enough free of
 			// everything that is asked for => must succeed. A dimension the node does not report per NUMA node has
 			// nothing free, so a request naming one carries no claim.
@@ -977,6 +1123,10 @@ func (s *nvSim) opSched(op *nvOp) bool {
 			}
 			s.r.Probe("numa-fail-justified")
 		}
+		if f := s.deferred; f != nil {
+			s.deferred = nil
+			f()
+		}
 		return true
 	}
 
@@ -1004,11 +1154,27 @@ func (s *nvSim) opSched(op *nvOp) bool {
 			if t.reserved(c) {
 				s.fail("cpu-not-free", "reserved", "CPU %d is reserved; got %v; %s", c, got.cpus, desc)
 			}
-			if cnt[c] >= t.Max {
-				s.fail("cpu-not-free", "refcount", "CPU %d was already held by %d pods (MaxRefCount %d); got %v; %s", c, cnt[c], t.Max, got.cpus, desc)
+			if cntFor(c) >= t.Max {
+				class := "refcount"
+				switch {
+				case resv != nil && len(victims) > 0:
+					class = "refcount-reservation+preemption"
+				case resv != nil:
+					class = "refcount-reservation"
+				case len(victims) > 0:
+					class = "refcount-preemption"
+				}
+				s.fail("cpu-not-free", class, "CPU %d was not free for this pod: held by %d (%d after giving back the reservation's / the victims' reference), MaxRefCount %d; got %v; %s",
+					c, cnt[c], cntFor(c), t.Max, got.cpus, desc)
 			}
-			if cnt[c] > 0 {
+			if cntFor(c) > 0 {
 				shared = true
+			}
+			if resvCPUs[c] {
+				s.r.Probe("owner-got-cpu-of-its-reservation")
+			}
+			if victimCPUs[c] {
+				s.r.Probe("preemptor-got-cpu-of-a-victim")
 			}
 		}
 		if shared {
@@ -1066,13 +1232,30 @@ func (s *nvSim) opSched(op *nvOp) bool {
 				if v < 0 {
 					s.fail("numa-negative", "", "negative amount %s=%d on NUMA node %d; %s", d, v, n, desc)
 				}
-				if v > free[n][d] {
-					s.fail("numa-over-free", nvDimSig(d), "NUMA node %d hands out %s=%d but had only %d free: %s; %s", n, d, v, free[n][d], got, desc)
+				if v > freeMax[n][d] {
+					s.fail("numa-over-free", nvDimSig(d), "NUMA node %d hands out %s=%d but had only %d free: %s; %s", n, d, v, freeMax[n][d], got, desc)
 				}
 				sum[d] += v
 			}
 		}
+		// A pod confined to a Restricted reservation whose preempted owners hold NUMA amounts is served from those
+		// amounts only (requiredResources): which dimensions exist there is not the node's question - the sum oracle
+		// is suspended for exactly this dry-run configuration.
+		restricted := false
+		if resv != nil && resv.spec.RPol == string(schedulingv1alpha1.ReservationAllocatePolicyRestricted) {
+			for _, uid := range victims {
+				if s.holders[op.N][uid].via == resv.uid {
+					restricted = true
+				}
+			}
+		}
+		if restricted {
+			s.r.Probe("numa-sum-suspended:restricted-reservation-preemption")
+		}
 		for _, d := range nvSortedKeys(pod.spec.Req) {
+			if restricted {
+				break
+			}
 			want := pod.spec.Req[d]
 			if !t.tracked(d) {
 				want = 0 // not a NUMA-level resource on this node: nothing to hand out
@@ -1091,15 +1274,159 @@ func (s *nvSim) opSched(op *nvOp) bool {
 		}
 	}
 
-	if op.Abandon {
-		// the cycle is given up after the allocation was computed (another plugin's Reserve failed): nothing was recorded
+	if f := s.deferred; f != nil {
+		s.deferred = nil
+		f()
+	}
+	if op.Abandon || len(victims) > 0 {
+		// the cycle is given up after the allocation was computed (another plugin's Reserve failed, or it was the
+		// dry run of a preemption): nothing was recorded
 		s.r.Probe("cycle-abandoned")
 		return true
+	}
+	got.resv = pod.spec.Resv
+	if resv != nil {
+		got.via = resv.uid
 	}
 	s.cycle = &nvCycle{pod: pod, node: op.N, real: pa, alloc: got, bindFails: op.BindFails}
 	delete(s.queue, op.P)
 	s.assumed[op.P] = true
 	return true
+}
+
+// allocateAsPlugin drives one allocation the way Plugin.allocate does. The real Plugin.RestoreReservation computes,
+// from the ledger, what the reservations on the node hand back (their CPUs, the part their owner pods already took);
+// then the sequence of allocateWithNominated follows: the real tryAllocateFromReusable for the reservation the pod
+// allocates out of (no fallback when it produced nothing), otherwise the real tryAllocateFromNode. A preemption dry
+// run passes the victims' CPUs / NUMA amounts as Plugin.RemovePod accumulates them (preemptibleNodeState).
+func (s *nvSim) allocateAsPlugin(op *nvOp, pod *nvPodVer, nd *nvNode, opts *ResourceOptions, resv *nvPodVer, victims []string, cntFor func(int) int) (*PodAllocation, *fwktype.Status) {
+	t := nd.topo
+	hs := s.holders[op.N]
+	uids := make([]string, 0, len(hs))
+	for uid := range hs {
+		uids = append(uids, uid)
+	}
+	sort.Strings(uids)
+	// the reservation cache as the scheduler sees it
+	rinfo := func(r *nvPodVer) *frameworkext.ReservationInfo {
+		ri := &frameworkext.ReservationInfo{
+			Reservation: &schedulingv1alpha1.Reservation{ObjectMeta: metav1.ObjectMeta{Name: r.name, UID: types.UID(r.uid)},
+				Spec: schedulingv1alpha1.ReservationSpec{AllocatePolicy: schedulingv1alpha1.ReservationAllocatePolicy(r.spec.RPol)}},
+			Pod:          r.obj,
+			AssignedPods: map[types.UID]*frameworkext.PodRequirement{},
+		}
+		for _, uid := range uids {
+			if hs[uid].via == r.uid {
+				ri.AssignedPods[types.UID(uid)] = &frameworkext.PodRequirement{Namespace: "default", Name: strings.TrimPrefix(uid, "u-"), UID: types.UID(uid)}
+			}
+		}
+		return ri
+	}
+	var matched, unmatched []*frameworkext.ReservationInfo
+	names := make([]string, 0, len(s.resvAvail))
+	for n := range s.resvAvail {
+		names = append(names, n)
+	}
+	sort.Strings(names)
+	for _, n := range names {
+		r := s.resvAvail[n]
+		if r.node != op.N || hs[r.uid].empty() {
+			continue
+		}
+		if resv != nil && r.uid == resv.uid {
+			matched = append(matched, rinfo(r))
+		} else {
+			unmatched = append(unmatched, rinfo(r))
+		}
+	}
+	restore := &nodeReservationRestoreStateData{}
+	if len(matched)+len(unmatched) > 0 {
+		ni := framework.NewNodeInfo()
+		ni.SetNode(nd.obj)
+		pl := &Plugin{resourceManager: s.rm, topologyOptionsManager: s.tm}
+		st, status := pl.RestoreReservation(context.TODO(), framework.NewCycleState(), pod.obj, matched, unmatched, ni)
+		if !status.IsSuccess() {
+			return nil, status
+		}
+		if v, ok := st.(*nodeReservationRestoreStateData); ok && v != nil {
+			restore = v
+		}
+		s.r.Probe("restore-reservation-state")
+	}
+	victimCPUs := map[int]bool{}
+	if len(victims) > 0 {
+		ns := &preemptibleNodeState{reservationsAlloc: map[types.UID]*preemptibleAlloc{}}
+		for _, uid := range victims {
+			a := hs[uid]
+			for _, c := range a.cpus {
+				victimCPUs[c] = true
+			}
+			// Plugin.getPodAllocated
+			cpus, _ := s.rm.GetAllocatedCPUSet(op.N, types.UID(uid))
+			numa, _ := s.rm.GetAllocatedNUMAResource(op.N, types.UID(uid))
+			if a.via != "" && !hs[a.via].empty() {
+				// the victim allocated out of a reservation: its resources go back to that reservation
+				ra := ns.reservationsAlloc[types.UID(a.via)]
+				if ra == nil {
+					ra = newPreemptibleAlloc()
+					ns.reservationsAlloc[types.UID(a.via)] = ra
+				}
+				ra.Accumulate(cpus, numa)
+				s.r.Probe("preemption-victim-of-a-reservation")
+			} else {
+				if ns.nodeAlloc == nil {
+					ns.nodeAlloc = newPreemptibleAlloc()
+				}
+				ns.nodeAlloc.Accumulate(cpus, numa)
+			}
+		}
+		opts.nodePreemptionState = ns
+		s.r.Probe("preemption-dry-run")
+	}
+	if resv != nil || len(victims) > 0 {
+		// the free set itself, with the sets this pod is entitled to restore: every CPU of a set gives back ONE reference
+		var sets []cpuset.CPUSet
+		if resv != nil {
+			sets = append(sets, cpuset.NewCPUSet(hs[resv.uid].cpus...))
+		}
+		if len(victims) > 0 {
+			sets = append(sets, cpuset.NewCPUSet(nvSortedInts(victimCPUs)...))
+		}
+		avail, _, err := s.rm.GetAvailableCPUs(op.N, sets...)
+		if err != nil {
+			s.fail("available", "error", "GetAvailableCPUs(%s): %v", op.N, err)
+		} else {
+			s.oracleEval()
+			for c := 0; c < t.numCPUs(); c++ {
+				want := !t.reserved(c) && cntFor(c) < t.Max
+				if want != avail.Contains(c) {
+					// reported after the oracles on what the allocation handed out (end of opSched)
+					msg := fmt.Sprintf("node %s CPU %d: reported free=%v for a pod restoring %v, model free=%v (held by %d after giving back one reference per set, MaxRefCount %d, reserved=%v)",
+						op.N, c, avail.Contains(c), sets, want, cntFor(c), t.Max, t.reserved(c))
+					s.deferred = func() { s.fail("available", "free-set-restored", "%s", msg) }
+					break
+				}
+			}
+		}
+	}
+	if resv != nil {
+		if alloc, ok := restore.matched[types.UID(resv.uid)]; ok {
+			s.r.Probe("sched-out-of-reservation")
+			if len(alloc.allocatableCPUs.Difference(alloc.remainedCPUs).ToSliceNoSort()) > 0 {
+				s.r.Probe("sched-out-of-partly-used-reservation")
+			}
+			pa, status := tryAllocateFromReusable(s.rm, restore, opts, map[types.UID]reusableAlloc{types.UID(resv.uid): alloc}, pod.obj, nd.obj)
+			if !status.IsSuccess() {
+				return nil, status
+			}
+			if pa == nil {
+				return nil, fwktype.NewStatus(fwktype.Unschedulable, "pod has a nominated reservation but cannot be allocated within its NUMA scope")
+			}
+			return pa, nil
+		}
+		s.r.Probe("reservation-not-restored(falls back to the node)")
+	}
+	return tryAllocateFromNode(s.rm, nil, restore, opts, pod.obj, nd.obj)
 }
 
 func nvPolSig(sp nvSpec) string {
@@ -1162,6 +1489,9 @@ func (s *nvSim) opTake(op *nvOp) bool {
 	}
 	if avail.Size() > 0 && avail.ToSlice()[avail.Size()-1] >= t.numCPUs() {
 		s.fail("available", "free-set", "node %s reports unknown CPUs free: %v", op.N, avail.ToSlice())
+	}
+	if op.Pol == string(apiext.CPUBindPolicyFullPCPUs) && t.S >= 3 && t.T >= 2 {
+		s.tagC06(nvTagTopUp)
 	}
 	topo := s.tm.GetTopologyOptions(op.N).CPUTopology
 	strategy := GetNUMAAllocateStrategy(nd.obj, s.rm.numaAllocateStrategy)
@@ -1320,9 +1650,10 @@ func (s *nvSim) checkLedger(after string) {
 		// CPUs
 		cnt := s.cpuCounts(node)
 		if nd := s.nodes[node]; nd != nil && s.known[node] == nd {
-			for _, c := range nvSortedInts(cnt) {
-				if cnt[c] > nd.topo.Max {
-					s.fail("refcount-exceeds-max", "", "after %s: node %s CPU %d is held by %d live pods, MaxRefCount %d", after, node, c, cnt[c], nd.topo.Max)
+			sh := nvSharing(hs)
+			for _, c := range nvSortedInts(sh) {
+				if sh[c] > nd.topo.Max {
+					s.fail("refcount-exceeds-max", "", "after %s: node %s CPU %d is used by %d live pods / unconsumed reservations (%d holders), MaxRefCount %d", after, node, c, sh[c], cnt[c], nd.topo.Max)
 				}
 			}
 		}
@@ -1388,6 +1719,7 @@ func (s *nvSim) checkQuiescent() {
 	for _, node := range names {
 		cnt := map[int]int{}
 		used := map[int]map[string]int64{}
+		live := map[string]*nvAlloc{}
 		nd := s.nodes[node]
 		if nd != nil {
 			for _, pn := range nvSortedPodNames(s.pods) {
@@ -1395,6 +1727,7 @@ func (s *nvSim) checkQuiescent() {
 				if p.node != node || p.term || p.alloc.empty() {
 					continue
 				}
+				live[p.uid] = p.alloc
 				for _, c := range p.alloc.cpus {
 					cnt[c]++
 				}
@@ -1423,8 +1756,13 @@ func (s *nvSim) checkQuiescent() {
 			if cpus[c].RefCount != k {
 				s.fail("ledger-live", "cpu-refcount", "quiescent: node %s CPU %d ref count %d, live API pods holding it %d", node, c, cpus[c].RefCount, k)
 			}
-			if nd != nil && k > nd.topo.Max {
-				s.fail("refcount-exceeds-max", "", "quiescent: node %s CPU %d is held by %d live pods, MaxRefCount %d", node, c, k, nd.topo.Max)
+		}
+		if nd != nil {
+			sh := nvSharing(live)
+			for _, c := range nvSortedInts(sh) {
+				if sh[c] > nd.topo.Max {
+					s.fail("refcount-exceeds-max", "", "quiescent: node %s CPU %d is used by %d live pods / unconsumed reservations (%d holders), MaxRefCount %d", node, c, sh[c], cnt[c], nd.topo.Max)
+				}
 			}
 		}
 		for n, nr := range res {
@@ -1516,7 +1854,7 @@ func (s *nvSim) checkEmpty() {
 
 func (nvEngine) Execute(r *sim.Run) {
 	s := &nvSim{r: r, nodes: map[string]*nvNode{}, pods: map[string]*nvPodVer{}, streams: map[string][]nvEvent{},
-		known: map[string]*nvNode{}, schedNodes: map[string]bool{}, queue: map[string]*nvPodVer{}, assumed: map[string]bool{}, holders: map[string]map[string]*nvAlloc{}}
+		known: map[string]*nvNode{}, schedNodes: map[string]bool{}, queue: map[string]*nvPodVer{}, assumed: map[string]bool{}, holders: map[string]map[string]*nvAlloc{}, resvAvail: map[string]*nvPodVer{}}
 	r.Plan.GetCfg(&s.cfg)
 	var ops []nvOp
 	r.Plan.GetOps(&ops)
@@ -1628,10 +1966,14 @@ func (nvEngine) Execute(r *sim.Run) {
 
 // ---------------------------------------------------------------- generation
 
-func nvGenTopo(g *sim.Rng, thorough bool) *nvTopo {
+func nvGenTopo(g *sim.Rng, thorough, wide bool) *nvTopo {
 	t := &nvTopo{S: g.PickInt(1, 1, 2), NPS: g.PickInt(1, 2, 2, 4), C: g.PickInt(1, 2, 2, 3, 4, 4, 5, 6, 7, 8), T: g.PickInt(1, 2, 2)}
 	if !thorough && t.numCPUs() > 48 && g.Bool(0.7) {
 		t.C = g.PickInt(1, 2, 3)
+	}
+	if wide && g.Bool(0.2) {
+		// three and four socket machines (total CPU count kept modest)
+		t.S, t.NPS, t.C = g.PickInt(3, 3, 4), g.PickInt(1, 1, 2), g.PickInt(1, 2, 2, 3, 4)
 	}
 	if t.T == 2 && g.Bool(0.4) {
 		t.Lay = 1
@@ -1835,6 +2177,7 @@ func nvGenPre(g *sim.Rng, t *nvTopo, names func() string) []nvPre {
 func (nvEngine) Generate(p *sim.Plan, g *sim.Rng) {
 	cfg := nvCfg{Strategy: g.Pick("MostAllocated", "LeastAllocated")}
 	thorough := p.Tier == "thorough"
+	ext := p.Prop != "C19" // C06 only: 3-4 socket machines, reservations with owner pods, preemption dry runs
 	nOps := g.Range(8, 40)
 	if thorough {
 		nOps = g.Range(8, 90)
@@ -1846,7 +2189,7 @@ func (nvEngine) Generate(p *sim.Plan, g *sim.Rng) {
 	np := 0
 	podName := func() string { np++; return fmt.Sprintf("p%d", np-1) }
 	addNode := func(name string) {
-		t := nvGenTopo(g, thorough)
+		t := nvGenTopo(g, thorough, ext)
 		op := nvOp{K: "node_add", N: name, Topo: t}
 		if g.Bool(0.5) {
 			op.Pre = nvGenPre(g, t, podName)
@@ -1880,7 +2223,82 @@ func (nvEngine) Generate(p *sim.Plan, g *sim.Rng) {
 	schedOp := func(pod, node string, hint []int) nvOp {
 		return nvOp{K: "sched", P: pod, N: node, Hint: hint, Abandon: g.Bool(0.1), BindFails: g.Bool(0.15)}
 	}
+	// reservations: name -> node they were sent to, and the CPUs they ask for
+	type genResv struct {
+		name, node string
+		cpus       int
+	}
+	var resvs []genResv
+	resvRun := ext && g.Bool(0.4)
 	for len(ops) < nOps {
+		if ext {
+			y := g.Intn(100)
+			switch {
+			case resvRun && (y < 6 || (len(resvs) == 0 && y < 30)):
+				// a reservation: its reserve pod asks for a CPU set and is scheduled like a pod
+				n := liveNode()
+				if n == "" {
+					break
+				}
+				t := nodes[n]
+				k := g.Range(2, max(2, min(t.numCPUs(), 10)))
+				op := nvOp{K: "pod_create", P: podName(), Resv: true, Bind: true, Req: map[string]int64{nvCPU: int64(k) * 1000},
+					Pol: g.Pick("FullPCPUs", "FullPCPUs", "SpreadByPCPUs"), RPol: g.Pick("", "Aligned", "Aligned", "Restricted"), Excl: g.Pick("", "", "PCPULevel")}
+				pods = append(pods, op.P)
+				resvs = append(resvs, genResv{op.P, n, k})
+				ops = append(ops, op, nvOp{K: "sched", P: op.P, N: n, BindFails: g.Bool(0.05)})
+				continue
+			case resvRun && len(resvs) > 0 && y < 30:
+				// an owner pod of a reservation, scheduled onto the reservation's node
+				rv := resvs[g.Intn(len(resvs))]
+				t := nodes[rv.node]
+				if t == nil {
+					break
+				}
+				var hint []int
+				if g.Bool(0.15) {
+					hint = nvGenHint(g, t)
+				}
+				op := nvGenSpec(g, t, hint)
+				op.P, op.Owner, op.Bind = podName(), rv.name, true
+				if g.Bool(0.85) {
+					op.Req[nvCPU] = int64(g.Range(1, max(1, rv.cpus-1))) * 1000
+				} else {
+					op.Req[nvCPU] = (op.Req[nvCPU]/1000 + 1) * 1000
+				}
+				if op.Pol == "" && g.Bool(0.7) {
+					op.Pol = "FullPCPUs"
+				}
+				pods = append(pods, op.P)
+				so := schedOp(op.P, rv.node, hint)
+				so.Abandon = g.Bool(0.05)
+				ops = append(ops, op, so)
+				continue
+			case y >= 94 && len(pods) > 0:
+				// a preemption dry run: the node is evaluated with some pods removed
+				n := liveNode()
+				if n == "" {
+					break
+				}
+				t := nodes[n]
+				var hint []int
+				if g.Bool(0.3) {
+					hint = nvGenHint(g, t)
+				}
+				op := nvGenSpec(g, t, hint)
+				op.P = podName()
+				if len(resvs) > 0 && g.Bool(0.4) {
+					op.Owner = resvs[g.Intn(len(resvs))].name
+				}
+				pods = append(pods, op.P)
+				so := schedOp(op.P, n, hint)
+				for i, k := 0, g.Range(1, 3); i < k; i++ {
+					so.Victims = append(so.Victims, pods[g.Intn(len(pods))])
+				}
+				ops = append(ops, op, so)
+				continue
+			}
+		}
 		x := g.Intn(100)
 		switch {
 		case x < 45:
@@ -2014,8 +2432,10 @@ func (f *nvSnapshot) List() ([]fwktype.NodeInfo, error) {
 	}
 	return out, nil
 }
-func (f *nvSnapshot) HavePodsWithAffinityList() ([]fwktype.NodeInfo, error)             { return nil, nil }
-func (f *nvSnapshot) HavePodsWithRequiredAntiAffinityList() ([]fwktype.NodeInfo, error) { return nil, nil }
+func (f *nvSnapshot) HavePodsWithAffinityList() ([]fwktype.NodeInfo, error) { return nil, nil }
+func (f *nvSnapshot) HavePodsWithRequiredAntiAffinityList() ([]fwktype.NodeInfo, error) {
+	return nil, nil
+}
 func (f *nvSnapshot) Get(nodeName string) (fwktype.NodeInfo, error) {
 	nd := f.s.nodes[nodeName]
 	if nd == nil {
